@@ -108,6 +108,28 @@ func rpLocalDef(fd *ast.FuncDecl, name string) ast.Expr {
 	return def
 }
 
+// rpAllDefs returns every right-hand side assigned to the identifier in the body.
+func rpAllDefs(fd *ast.FuncDecl, name string) []ast.Expr {
+	var defs []ast.Expr
+	ast.Inspect(fd.Body, func(x ast.Node) bool {
+		as, ok := x.(*ast.AssignStmt)
+		if !ok {
+			return true
+		}
+		for i, l := range as.Lhs {
+			if id, ok := l.(*ast.Ident); ok && id.Name == name {
+				if len(as.Rhs) == 1 {
+					defs = append(defs, as.Rhs[0])
+				} else if i < len(as.Rhs) {
+					defs = append(defs, as.Rhs[i])
+				}
+			}
+		}
+		return true
+	})
+	return defs
+}
+
 // rpAssigned reports whether the identifier is ever on the left of an assignment in the body.
 func rpAssigned(fd *ast.FuncDecl, name string) bool {
 	_, n := rpLocalDefN(fd, name)
@@ -658,6 +680,30 @@ func rpAnalyse(root *pkgSrc, fd *ast.FuncDecl, file string) rpRecord {
 							r.ctx = "background"
 						case strings.Contains(s, recv+".getSSEConn.ctx") || strings.Contains(s, recv+".sseConn.ctx"):
 							r.ctx = "handshake"
+						default:
+							// one level of indirection: ctx derived from a local that is initialised from the stream's context
+							// (`parent := t.getSSEConn.ctx; if parent == nil { parent = context.Background() }` — the fallback only
+							// applies when there is no stream at all)
+							ast.Inspect(def, func(n ast.Node) bool {
+								if id2, ok := n.(*ast.Ident); ok && id2.Name != id.Name {
+									stream, other := false, false
+									for _, d2 := range rpAllDefs(fd, id2.Name) {
+										s2 := rpSquash(root.text(d2))
+										switch {
+										case strings.Contains(s2, recv+".getSSEConn.ctx") || strings.Contains(s2, recv+".sseConn.ctx"):
+											stream = true
+										case s2 == "context.Background()":
+											// nil fallback
+										default:
+											other = true
+										}
+									}
+									if stream && !other {
+										r.ctx = "handshake"
+									}
+								}
+								return true
+							})
 						}
 					}
 				}
